@@ -77,18 +77,20 @@ Proof.
     fold M in H2. rewrite Z.mod_small by lia. lia.
 Qed.
 
-(* ---- YEAR ---- *)
+(* ---- YEAR: every YEAR value, the zero year 0000 included ---- *)
 Theorem year_roundtrip y :
-  (1901 <= y <= 2155)%Z -> decodes_to (VYear y) (enc_year y) = true.
+  in_domain (VYear y) = true -> decodes_to (VYear y) (enc_year y) = true.
 Proof.
-  intros Hy. cbn [decodes_to]. unfold enc_year, dec_year, opt_eqb.
-  destruct (Z.to_N ((y - 1900) mod 256) =? 0) eqn:E; [apply N.eqb_eq in E | apply N.eqb_neq in E]; apply Z.eqb_eq; lia.
+  cbn [in_domain decodes_to]. intros H. unfold enc_year, dec_year, opt_eqb.
+  destruct (y =? 0)%Z eqn:E0.
+  - apply Z.eqb_eq in E0. subst y. reflexivity.
+  - cbn [orb] in H. apply andb_true_iff in H as [H1 H2]. apply Z.leb_le in H1, H2.
+    destruct (Z.to_N ((y - 1900) mod 256) =? 0) eqn:E; [apply N.eqb_eq in E | apply N.eqb_neq in E]; apply Z.eqb_eq; lia.
 Qed.
 
-(* the zero year 0000 is a YEAR value; dolt emits byte(0 - 1900) = 148, which a replica reads as 2048 *)
-Theorem year_zero_refuted :
-  exists y, in_domain (VYear y) = true /\ decodes_to (VYear y) (enc_year y) = false /\ dec_year (enc_year y) = Some 2048%Z.
-Proof. exists 0%Z. repeat split; vm_compute; reflexivity. Qed.
+(* regression (was year_zero_refuted before f00b2b9): YEAR 0000 is emitted as 0 and read back as 0000 *)
+Example year_zero_regression : enc_year 0 = [0] /\ dec_year (enc_year 0) = Some 0%Z.
+Proof. split; reflexivity. Qed.
 
 (* ---- DATE ---- *)
 Theorem date_roundtrip y m d :
@@ -599,10 +601,9 @@ Proof.
 Qed.
 
 (* full statement: for every document of the domain (jv_ok 60), decode (encode doc) = doc.
-   FALSE as stated: json_key256_refuted, json_underflow_refuted below.
    Proved here: every scalar document (null / true / false / every float64 / every string below 2^21 bytes).
-   Missing: the general theorem for arrays and objects (nested offsets) outside the two refuted classes — they are
-   covered by execution (json_examples) and by the correspondence run with both decoders. *)
+   Missing: the general theorem for arrays and objects (nested offsets) — they are
+   covered by execution (json_examples, json_key256_regression, json_oversize_regression) and by the correspondence run with both decoders. *)
 Theorem json_scalar_roundtrip_partial v :
   in_domain (VJson v) = true -> jv_scalar v = true ->
   exists b, enc_json_doc v = Some b /\ decodes_to (VJson v) b = true.
@@ -628,17 +629,25 @@ Proof.
     unfold opt_eqb. cbn [jv_eqb]. apply beq_bytes_refl.
 Qed.
 
-(* an object key of 256 bytes: the key-entry length is written as byte(len), byte(len<<8) = (0, 0); the replica reads an empty key *)
-Theorem json_key256_refuted :
-  exists v b, in_domain (VJson v) = true /\ enc_json_doc v = Some b /\ decodes_to (VJson v) b = false
-              /\ dec_json_doc 64 b = Some (JObj [([], JNull)]).
-Proof. exists (JObj [(repeat 107 256, JNull)]). eexists. repeat split; vm_compute; reflexivity. Qed.
+(* the 2-byte key length of an object key entry reads back, for every key below 2^16 bytes *)
+Lemma json_key_len_roundtrip n : n < 65536 -> le_val [n mod 256; (n / 256) mod 256] = n.
+Proof. intros H. unfold le_val, of_base. cbn [rev app fold_left]. lia. Qed.
 
-(* ["x", <70000-byte string>]: the small-format check  offset > 65535 - uint32(len)  underflows, the small format is kept
-   and its 2-byte size field is truncated; a MySQL-rules decoder rejects the document *)
-Theorem json_underflow_refuted :
-  exists v b, in_domain (VJson v) = true /\ enc_json_doc v = Some b /\ dec_json_doc 64 b = None.
-Proof. exists (JArr [JStr [120]; JStr (repeat 97 70000)]). eexists. repeat split; vm_compute; reflexivity. Qed.
+(* regressions (were json_key256_refuted / json_underflow_refuted before 68f42a2): object keys of 256, 300 and 65535 bytes
+   round-trip; an element longer than 65535 bytes as the last one sends the array / object to the large format and round-trips *)
+Example json_key256_regression :
+  forallb (fun v => match enc_json_doc v with Some b => decodes_to (VJson v) b | None => false end)
+    [JObj [(repeat 107 256, JNull)]; JObj [(repeat 107 300, JArr [JNum 0])]; JObj [(repeat 107 65535, JTrue)];
+     JObj [(repeat 97 255, JNum 1); (repeat 98 256, JStr [120]); (repeat 99 257, JObj [(repeat 100 256, JNull)])]] = true.
+Proof. vm_compute. reflexivity. Qed.
+
+Example json_oversize_regression :
+  forallb (fun v => match enc_json_doc v with
+                    | Some b => decodes_to (VJson v) b && (nth 4 b 0 =? (match v with JObj _ => 1 | _ => 3 end))   (* large format *)
+                    | None => false end)
+    [JArr [JStr [120]; JStr (repeat 97 70000)]; JObj [([97], JStr (repeat 97 70000))]; JArr [JStr (repeat 97 70000)];
+     JArr [JStr (repeat 112 65533)]] = true.
+Proof. vm_compute. reflexivity. Qed.
 
 (* arrays / objects, small and large formats, inlined literals, nested offsets: executed *)
 Example json_examples :
@@ -651,11 +660,10 @@ Example json_examples :
      JArr (repeat JNull 300)] = true.
 Proof. vm_compute. reflexivity. Qed.
 
-(* ---- the oracle holds on the model: for every in-domain value outside the refuted classes (and, for JSON,
+(* ---- the oracle holds on the model: for every in-domain value outside the two still-open refuted classes (negative TIME xx:xx:59.f, DECIMAL(M,M)) (and, for JSON,
    inside the proved scalar class) the model's bytes + metadata satisfy the executable property ---- *)
 Definition proved_class (v : value) : Prop :=
   match v with
-  | VYear y => y <> 0%Z
   | VTime neg _ _ s us => neg = true -> 0 < us -> s < 59
   | VDecimal prec scale _ _ _ => prec <> scale
   | VJson d => jv_scalar d = true
@@ -693,8 +701,7 @@ Proof.
   { destruct v; cbn [model_enc proved_class] in *;
       try (eexists; split; [reflexivity|]).
     - apply int_roundtrip; exact Hd.
-    - apply year_roundtrip. cbn [in_domain] in Hd. apply orb_true_iff in Hd as [Hd|Hd]; [apply Z.eqb_eq in Hd; congruence|].
-      apply andb_true_iff in Hd as [H1 H2]. apply Z.leb_le in H1, H2. split; assumption.
+    - apply year_roundtrip; exact Hd.
     - apply date_roundtrip; exact Hd.
     - apply datetime2_roundtrip; exact Hd.
     - apply timestamp2_roundtrip; exact Hd.
